@@ -3,6 +3,7 @@ import PatVerif.Hex
 import PatVerif.Generated.ScLimbs
 import PatVerif.Generated.FeLimbs
 import PatVerif.Generated.EdPoints
+import PatVerif.Model.Recode
 /-! Second driver (C14/C15 only): runs the *translated* limb code of `Generated/ScLimbs.lean` and `Generated/FeLimbs.lean` — the
 definitions `Proofs/Sc*.lean` and `Proofs/Fe*.lean` are about — on the scalar and field operations of the stream, so that the
 translators' reading of the Go source is itself compared with the implementation on every run. -/
@@ -98,6 +99,23 @@ def answer (line : String) : String :=
   | ["c14.sccanon", x] =>
     match parseV x with
     | some x => if x.length = 32 then (if isReduced (asFn x) then "1" else "0") else "-"
+    | none => "-"
+  -- digit recodings: the translated `SetBytes` (reduction modulo L), then the literal model of the Go loops (Model/Recode.lean)
+  | ["c14.dg", kind, x] =>
+    match parseV x with
+    | some x =>
+      if x.length = 32 then
+        let s : List Nat := (Scalar_SetBytes (asFn x)).map Int.toNat
+        let out := fun (ds : Option (List Int)) =>
+          match ds with
+          | some ds => "ok " ++ hxv (ds.map fun d => UInt8.ofNat (d % 256).toNat)
+          | none => "panic"
+        match kind with
+        | "radix16" => out (PatVerif.Model.Recode.signedRadix16 s)
+        | "naf5" => out (PatVerif.Model.Recode.nonAdjacentForm s 5)
+        | "naf8" => out (PatVerif.Model.Recode.nonAdjacentForm s 8)
+        | _ => "-"
+      else "-"
     | none => "-"
   | ["c14.pt", op, a, b] =>
     match parseV a, parseV b with
